@@ -74,12 +74,12 @@ PROPS = {
     },
     "C05": {
         "level": "proof",
-        "cone": ["model/Eval.v", "proofs/EvalProofs.v", "props/C05.v"],
+        "cone": ["model/Eval.v", "proofs/EvalProofs.v", "proofs/QuietProofs.v", "props/C05.v"],
         "trusted_base": COMMON_TB + [
             "model/Eval.v + model/Value.v transcribe compiler.go, helper_context.go, partial_helper.go and helpers/content (reflect modelled by case analysis on the shared value family); tied to the code by the render correspondence",
         ],
         "assumptions": [],
-        "explanation": "theorems about error propagation in the evaluator model + failing-helper placements run on the implementation (invoked-and-failed oracle) and re-evaluated by the model",
+        "explanation": "global invariant of the evaluator model proved by induction on fuel over all 27 mutually recursive functions (a result that is a value, or the tolerated unknown identifier, means no failing helper was invoked; otherwise exactly one was and the error is its sentinel) + one-step theorems about error propagation + failing-helper placements run on the implementation (invoked-and-failed oracle) and re-evaluated by the model",
     },
     "C07": {
         "level": "proof",
